@@ -724,7 +724,7 @@ mutual
         let jsonKey := if cfg.tags.contains "json" then name else fieldName
         let yamlKey := if cfg.tags.contains "yaml" then name else fieldName.toLower
         let comment := if prop.node.description = "" then s!"{fieldName} corresponds to the JSON schema field \"{name}\"." else prop.node.description
-        let fld : Field := { name := fieldName, jsonName := name, ty := fty, tags, jsonKey, yamlKey, omitEmpty := !isRequired, comment }
+        let fld : Field := { name := fieldName, jsonName := name, ty := fty, tags, jsonKey, yamlKey, omitEmpty := !isRequired && cfg.tags.contains "json", comment }
         let fm : FieldMeta := { name := fieldName, jsonName := name, sch := propEff, dflt, ty := fty }
         addStructFields cfg doc f t scope rest unique (fs ++ [fld]) (ms ++ [fm]) req'
 
